@@ -1,19 +1,47 @@
-"""Claims registered in MANIFEST.json (edit here, then run tools/gen_manifest.py)."""
+"""Claims registered in MANIFEST.json (edit here, then run tools/gen_manifest.py).
+A property is claimed as soon as its Props modules (tools/units.py) contain proved theorems and its
+correspondence runs green; until then it is listed under not_applicable with the reason `in progress`."""
+import os
+import sys
+sys.path.insert(0, os.path.dirname(os.path.abspath(__file__)))
+from units import UNITS
+
 HOOK_COMMITS = ["d84e864", "ee294ac", "ebadae1", "b32c974"]
 
-CLAIMS = {
-    "C18": {
-        "text": "Complete kernel-checked proof, for all operands and all array lengths, that every predicate/selector of "
-                "constant_time.rs (model Impl/ConstantTime.lean) returns the ordinary answer (58 theorems in Props/C18.lean, "
-                "axioms propext/Quot.sound/Classical.choice only); the model is tied to the code on every run by executing "
-                "~45k (quick) / ~170k (thorough) directed cases on the real crate, the Lean model and the plain specification.",
-        "note": "trusted: Lean kernel; hand model of constant_time.rs validated by the correspondence run (all byte pairs in the "
-                "thorough tier, boundary set squared, every single-position difference for lengths 0..=40); the i16/i8 borrow "
-                "chain is modelled in Int with a proved range lemma; [i32;N] modelled on u32 bit patterns.",
-        "technique": "Lean 4 theorem proving (bit-vector/omega proofs, induction over lists) + differential correspondence",
-        "design_ref": "DESIGN.md 6/C18",
-    },
+COMMON_NOTE = ("Trusted: Lean 4.33 kernel (axioms propext, Classical.choice, Quot.sound only; audited per theorem on every run), the hand-written "
+               "Lean models (tied to /repo on every run by re-extracted tables + the differential correspondence harness), tools/*.py, harness/, "
+               "rustc. See DESIGN.md section 3 and the per-run evidence (theorems, axioms_by_theorem, input_distribution).")
+T = "Lean 4 theorem proving (induction / refinement / omega+ring carry-chain arithmetic / kernel-decided complete tables) + tables re-extracted from source + differential correspondence (code vs Impl model vs Spec)"
+
+TEXT = {
+    "C01": "Theorems: FixedBuffer/standard-padding refinement and `Impl one-shot = Spec` for all messages (SHA-224/256 len<2^61, SHA-384/512/t len<2^125, SHA-1, RIPEMD-160, SHA-3/Keccak sponge, BLAKE2b/s for every outlen/key), compression-function equivalences (SHA-256 unrolled, SHA-512 pair lanes, SHA-1 SHA-NI emulation, RIPEMD-160 schedule, Keccak-f compact form), kernel-decided table theorems on constants re-extracted from /repo/src each run; correspondence over every length 0..=4 blocks+1 for all variants.",
+    "C02": "Refinement theorems: every context family refines the abstract state `bytes since last reset` for every finite op history (update, update_mut, clone, swap, reset, reset_with_key, finalize_reset, finalize), split independence, reset = new as state equality; correspondence over exhaustive histories to depth 3/4 and random histories.",
+    "C03": "Theorems for both engine models (portable, SSE2 rows): state layout for every key/nonce length, rounds = standard double rounds, update = block(counter) then +1, 32-bit wrap and 64-bit carry for all counter values, process = data xor Spec keystream at the absolute position for all five variants, HChaCha/HSalsa; correspondence incl. counters preset next to 2^32-1 / 2^64-1 through hooks.",
+    "C04": "Refinement of every cipher context to `absolute stream position` for every history of {process, process_mut, seek, clone}; partition independence, involution, seek from mid-block; DRG request sequences = successive keystream bytes independent of sizing and of prior buffer contents (false before fix 1b3253e: witness kept).",
+    "C05": "Complete limb-level proof of Poly1305 (clamp/split, block invariant without u32/u64 overflow, finish incl. accumulators in [p,2^130), staging for every chunking) = RFC 8439 on Nat for all keys and messages; correspondence with model-guided wrap-around inputs.",
+    "C06": "AEAD = RFC 8439 construction for any partition of add_data/encrypt/decrypt calls (MAC-input bookkeeping by induction over the call history), one-shot = streamed = Spec, decrypt inverts encrypt.",
+    "C07": "Decision theorem: decryption accepts iff the tag equals the RFC 8439 tag of exactly those inputs (using the C18 array-equality theorem), injectivity of the MAC-input encoding; every tag bit flip rejected; ct/aad/key/nonce flips hold up to a Poly1305 collision (sampled, stated limit).",
+    "C08": "HMAC = RFC 2104 generically over a digest-object contract, for every key length and chunking; block-size/output-size table theorem on values re-extracted from the source.",
+    "C09": "Bisimulation of MAC / legacy digest objects with the abstract object (key, bytes since reset, finished?): every returned value is the MAC/digest of the bytes since the last reset or a panic; reset re-keys (false before fixes 802db65/c8ec1e5: witnesses kept).",
+    "C10": "HKDF/PBKDF2/scrypt = RFC 5869/8018/7914 generically in the PRF (U_1 xor … xor U_c by induction, partial last block, BlockMix/ROMix/integerify, parameter validation, refusal beyond 255*HashLen).",
+    "C11": "Argon2 component theorems (H', geometry, addressing, index_alpha without overflow, G/P/GB, version-dependent XOR) and their assembly as far as proved (`_partial` where not); Spec written from RFC 9106 and validated by its vectors.",
+    "C12": "Fe64 refinement library (no u64/u128 overflow, invariants, value mod p for every operator, canonical to_bytes, addition chains) and `curve25519 n u = RFC 7748 X25519` for all scalars and u-coordinates; primality of p as explicit hypothesis where inversion is interpreted.",
+    "C13": "keypair/signature/signature_extended/extended_to_public/exchange = RFC 8032 Spec by composition of SHA-512, clamp, wide reduction, muladd and fixed-base multiplication; comb = [a]B under the explicit Edwards group-law hypothesis (`_partial`).",
+    "C14": "verify accepts iff (A decodes, A != 0^32, S < L, enc([S]B-[h]A) = R); slide recoding and BI table theorems; double-scalar part under the explicit group-law hypothesis (`_partial`).",
+    "C15": "Field, scalar (Barrett reduction = mod L for all 512-bit inputs, canonical decoder accepts exactly < L) and group layers; kernel-decided table theorem: all 264 precomputed entries are the multiples of B they stand for; encode/decode round trip (false before fix f886003).",
+    "C16": "Lane-algebra theorems: SSE2-row ChaCha = portable rounds/init/counters for every state and R (more SIMD models as they land); the same workload through {baseline,+sse4.1,+avx,+avx2} harness binaries must equal the model. Partial: instruction selection is observed, not proved.",
+    "C17": "Both scalar-canonicity tests refine le(s) < L; C12-C15 workloads through default and force-32bits binaries compared with each other and the Spec; the feature build compiling is checked. Partial: fe32 mul/square and scalar32 reduction are covered by correspondence only.",
+    "C18": "Complete kernel-checked proof, for all operands and array lengths, that every predicate/selector of constant_time.rs returns the ordinary answer (58 theorems); ~55k (quick) directed correspondence cases incl. cancellation patterns.",
+    "C19": "Leakage-trace theorems on instrumented models (array equality/ordering, masked swap, table selection, scalar loops: trace is a function of public data; negative controls leak) + dynamic check: PC traces of the optimised binary (valgrind lackey, ptrace cross-check) identical for all sampled secrets. Partial: the compiler's output is observed, not proved.",
+    "C20": "Overflow-freedom and counter theorems (BLAKE2 two-word counter = 64/128-bit counter for all values, checked build refines wrapping build, Poly1305/Fe64/Scalar64 no-overflow obligations) + refusal predicates; workloads and hook-preset counters through debug / release+checks / release binaries must agree with the model incl. PANIC verdicts. Partial: memory safety of unsafe code is observed (thorough: Miri subset), not proved.",
 }
 
-_todo = "check under construction in this session (model/theorems not yet committed); will be claimed when its Props file builds"
-NOT_YET = {f"C{i:02d}": _todo for i in range(1, 21) if f"C{i:02d}" not in CLAIMS}
+CLAIMS, NOT_YET = {}, {}
+for i in range(1, 21):
+    pid = f"C{i:02d}"
+    mods = [m for u in UNITS.values() for m in u.get("props", {}).get(pid, [])]
+    if mods:
+        CLAIMS[pid] = {"text": TEXT[pid] + " Lean modules: " + ", ".join(mods) + ".", "note": COMMON_NOTE, "technique": T,
+                       "design_ref": f"DESIGN.md 6/{pid}"}
+    else:
+        NOT_YET[pid] = "in progress in this session: models and correspondence run, the Props modules with the theorems are not integrated yet; will be claimed when they build"
